@@ -33,6 +33,12 @@ pub struct VxIoError { _p: () }
 pub type VxIoResult<T> = Result<T, VxIoError>;
 impl VxWriter {
     #[verifier::external_body]
+    pub fn write_all(&mut self, data: &[u8]) -> (r: VxIoResult<()>)
+        ensures
+            r.is_ok() ==> final(self).bytes@ == old(self).bytes@ + data@,
+            r.is_err() ==> old(self).bytes@.is_prefix_of(final(self).bytes@) && final(self).bytes@.is_prefix_of(old(self).bytes@ + data@),
+    { unimplemented!() }
+    #[verifier::external_body]
     pub fn clear(&mut self) ensures final(self).bytes@ == Seq::<u8>::empty() { unimplemented!() }
 }
 
@@ -84,3 +90,21 @@ pub fn vx_expect<T>(o: Option<T>) -> (r: T)
     requires o is Some
     ensures r == o->Some_0
 { unimplemented!() }
+
+// ---- captures (C03 / C01): `String::from_utf8(buf)?` then `Value::safe_string(&s)`
+#[verifier::external_body]
+pub fn vx_string_from_utf8(w: VxWriter) -> (r: TeraResult<String>)
+    ensures r is Ok == is_utf8(w.bytes@), r is Ok ==> r->Ok_0@.len() >= 0 && str_bytes(r->Ok_0) == w.bytes@
+{ unimplemented!() }
+pub uninterp spec fn str_bytes(s: String) -> Seq<u8>;
+impl Value {
+    /// minted safe: prints exactly the string, is not undefined, is marked safe
+    #[verifier::external_body]
+    pub fn safe_string(val: &String) -> (r: Value)
+        ensures r.safe_spec(), !r.undefined_spec(), r.fmt_spec() == str_bytes(*val)
+    { unimplemented!() }
+}
+#[verifier::external_body]
+pub fn vx_new_writer(cap: usize) -> (r: VxWriter) ensures r.bytes@ == Seq::<u8>::empty() { unimplemented!() }
+#[verifier::external_body]
+pub fn vx_str_as_bytes(s: &String) -> (r: &[u8]) ensures r@ == str_bytes(*s) { unimplemented!() }
